@@ -189,9 +189,10 @@ def gen_templates(toptext, bldtext, layout, skip_filter=False):
         top = Topology.from_gmx_topfile(d / "s.top", "v")
         top.preprocess()
         files = []
-        if bldtext:
-            (d / "b.bld").write_text(bldtext)
-            files = [d / "b.bld"]
+        for i, text in enumerate(bldtext if isinstance(bldtext, list) else ([bldtext] if bldtext else [])):
+            if text:
+                (d / f"b{i}.bld").write_text(text)      # several -b files are read one after the other
+                files.append(d / f"b{i}.bld")
         load_build_files(top, None, files)
         gt.optimize_geometry = spy
         try:
@@ -475,7 +476,9 @@ def check_user(case):
     d2 = dict(id="u2", names=["A", "B"], bonds=[(0, 1, 0.3)], angles=[])
     tmpl3 = {"A": (0.0, 0.0, 0.0), "B": (0.31, 0.0, 0.02), "C": (0.45, 0.27, 0.0)}
     for give_t, give_v3, give_v2 in itertools.product((False, True), repeat=3):
-        for order, skip in itertools.product(("volumes-first", "template-first"), (False, True)):
+        for order, skip, split in itertools.product(("volumes-first", "template-first"), (False, True), (False, True)):
+            if split and skip:
+                continue
             blocks = []
             tblock = ("[ template ]\nresname R\n[ atoms ]\n" + "".join(f"{n} P {p[0]} {p[1]} {p[2]}\n" for n, p in tmpl3.items()) + "[ bonds ]\nA B\nB C\n") if give_t else ""
             vlines = []
@@ -485,8 +488,11 @@ def check_user(case):
                 vlines.append("Q 0.33")
             vblock = ("[ volumes ]\n" + "\n".join(vlines) + "\n") if vlines else ""
             bld = (vblock + tblock) if order == "volumes-first" else (tblock + vblock)
+            if split:
+                # the same directives spread over two build files, in the same order
+                bld = [vblock, tblock] if order == "volumes-first" else [tblock, vblock]
             evals += 1
-            case1 = dict(kind="user1", give_t=give_t, give_v3=give_v3, give_v2=give_v2, order=order, skip=skip)
+            case1 = dict(kind="user1", give_t=give_t, give_v3=give_v3, give_v2=give_v2, order=order, skip=skip, split=split)
             try:
                 top, recs = gen_templates(top_for([d3, d2, d3], ["R", "Q", "R"]), bld, 0, skip_filter=skip)
             except Exception as exc:  # noqa
@@ -507,7 +513,7 @@ def check_user(case):
                 viols.append(dict(assertion="user-size-used-unchanged", tags=[], message=f"size of R {top.volumes.get(tkeys[0])} expected 0.77 ({bld!r})", case=case1, detail={}))
             if give_v2 and top.volumes.get(tkeys[1]) != 0.33:
                 viols.append(dict(assertion="user-size-used-unchanged", tags=[], message=f"size of Q {top.volumes.get(tkeys[1])} expected 0.33", case=case1, detail={}))
-            keys.append(f"user:{give_t}:{give_v3}:{give_v2}:{order}:{skip}")
+            keys.append(f"user:{give_t}:{give_v3}:{give_v2}:{order}:{skip}:{split}")
     return viols, evals, keys
 
 
